@@ -93,29 +93,35 @@ def smt2_of(assertions):
     return "(set-logic ALL)\n" + s.to_smt2()
 
 
-def external(path, stats):
-    """-> {'z3bin': 'sat'|'unsat'|…, 'cvc5': …}"""
+SOLVERS = (("z3bin", ["/usr/bin/z3", "-T:300"]), ("cvc5", ["cvc5", "--incremental", "--tlimit=300000"]))
+
+
+def run_solvers(path, stats, nqueries):
+    """-> {'z3bin': [answers…], 'cvc5': [answers…]} for a file with nqueries (check-sat) commands;
+    an answer list of the wrong length / an `(error` makes the entry a string describing the problem."""
     out = {}
-    for tag, cmd in (("z3bin", ["/usr/bin/z3", "-T:120", path]), ("cvc5", ["cvc5", "--tlimit=120000", path])):
+    for tag, cmd in SOLVERS:
         t = time.time()
         try:
-            p = subprocess.run(cmd, stdout=subprocess.PIPE, stderr=subprocess.PIPE, timeout=150)
+            p = subprocess.run(cmd + [path], stdout=subprocess.PIPE, stderr=subprocess.PIPE, timeout=400)
             txt = (p.stdout.decode() + p.stderr.decode()).strip()
         except subprocess.TimeoutExpired:
             txt = "timeout"
         stats["solver_time_s"] += time.time() - t
-        stats["queries_external"] += 1
-        first = txt.split("\n")[0].strip() if txt else ""
-        if "(error" in txt or first not in ("sat", "unsat"):
-            out[tag] = "error: " + txt[:200]
+        lines = [l.strip() for l in txt.split("\n") if l.strip()]
+        if "(error" in txt or len(lines) != nqueries or any(l not in ("sat", "unsat") for l in lines):
+            out[tag] = "error: " + txt[:300]
         else:
-            out[tag] = first
+            out[tag] = lines
+            stats["queries_external"] += nqueries
     return out
 
 
-def decide(assertions, qpath, stats, want_model=False):
-    """Python z3 verdict + cross-check of the SMT-LIB dump by /usr/bin/z3 and cvc5.
-    -> ('sat'|'unsat', model or None).  Disagreement / error / unknown -> Inconclusive."""
+def decide(assertions, qpath, stats, want_model=False, pending=None, owner=None):
+    """Verdict query: decided by the z3 Python API; the SMT-LIB dump is decided again by
+    /usr/bin/z3 and cvc5 — immediately (pending is None) or at the end of the batch
+    (`cross_check`, one solver process per batch instead of one per query).
+    -> ('sat'|'unsat', model or None).  unknown -> Inconclusive."""
     s = z3.Solver()
     s.set("timeout", QUERY_TIMEOUT_MS)
     for a in assertions:
@@ -127,13 +133,44 @@ def decide(assertions, qpath, stats, want_model=False):
     if r == z3.unknown:
         raise Inconclusive("z3 unknown on %s: %s" % (qpath, s.reason_unknown()))
     res = "sat" if r == z3.sat else "unsat"
+    body = s.to_smt2()
     with open(qpath, "w") as f:
-        f.write(smt2_of(assertions))
-    ext = external(qpath, stats)
-    for tag, v in ext.items():
-        if v != res:
-            raise Inconclusive("solver disagreement on %s: z3py=%s %s=%s" % (qpath, res, tag, v))
+        f.write("(set-logic ALL)\n" + body)
+    if pending is None:
+        ext = run_solvers(qpath, stats, 1)
+        for tag, v in ext.items():
+            if v != [res]:
+                raise Inconclusive("solver disagreement on %s: z3py=%s %s=%s" % (qpath, res, tag, v))
+    else:
+        pending.append({"owner": owner, "path": qpath, "body": body, "expect": res})
     return res, (s.model() if (res == "sat" and want_model) else None)
+
+
+def cross_check(pending, wdir, stats):
+    """Decide all dumped verdict queries of a batch with both external solvers.
+    -> {owner: reason} for the kernels whose queries were not confirmed."""
+    if not pending:
+        return {}
+    path = os.path.join(wdir, "batch_queries.smt2")
+    with open(path, "w") as f:
+        f.write("(set-logic ALL)\n")
+        for q in pending:
+            f.write("(push 1)\n%s\n(pop 1)\n" % q["body"])
+    ext = run_solvers(path, stats, len(pending))
+    bad = {}
+    if all(isinstance(v, list) for v in ext.values()):
+        for i, q in enumerate(pending):
+            for tag, v in ext.items():
+                if v[i] != q["expect"]:
+                    bad[q["owner"]] = "solver disagreement on %s: z3py=%s %s=%s" % (q["path"], q["expect"], tag, v[i])
+        return bad
+    # a solver choked on the combined file: decide every query on its own
+    for q in pending:
+        e1 = run_solvers(q["path"], stats, 1)
+        for tag, v in e1.items():
+            if v != [q["expect"]]:
+                bad[q["owner"]] = "solver disagreement on %s: z3py=%s %s=%s" % (q["path"], q["expect"], tag, v)
+    return bad
 
 
 def quick_sat(assertions, stats):
@@ -200,6 +237,10 @@ def do_replay(fn_src_text, expected, wdir, tag, ref_kernel=None, kernel_name=Non
         built += 1
         rc, out, err = run_exe(exe)
         obs[be] = {"exit": rc, "stdout": out[-300:], "stderr": err[-300:]}
+        try:
+            os.remove(exe)
+        except OSError:
+            pass
         if rc != 0 or out != expected_stdout(expected):
             deviates = True
     if built == 0:
@@ -207,7 +248,7 @@ def do_replay(fn_src_text, expected, wdir, tag, ref_kernel=None, kernel_name=Non
     return deviates, obs, ""
 
 
-def check_kernel(fn, prog, wdir, stats, validated_kernel):
+def check_kernel(fn, prog, wdir, stats, validated_kernel, pending=None):
     """Symbolic check of one kernel.  -> result dict (status ok | violation | inconclusive)."""
     res = {"name": fn.name, "key": fn.key(), "T": fn.T, "shape": fn.shape, "status": "ok", "arms": len(fn.arms)}
     f = prog.function(fn.name)
@@ -223,6 +264,7 @@ def check_kernel(fn, prog, wdir, stats, validated_kernel):
     paths = I.run(fn.name, [x])
     res["paths"] = len(paths)
     res["ops"] = sorted(I.ops_seen)
+    res["undef_reads"] = I.undef_reads
     stats["paths"] += len(paths)
     stats["steps"] += I.steps
     VALID = z3.And(valid) if valid else z3.BoolVal(True)
@@ -247,12 +289,14 @@ def check_kernel(fn, prog, wdir, stats, validated_kernel):
     os.makedirs(qdir, exist_ok=True)
 
     # (C) the explored paths cover every valid scrutinee (no path was lost)
-    r, _ = decide([VALID, z3.Not(z3.Or(pcs))], os.path.join(qdir, fn.name + "_cover.smt2"), stats)
+    r, _ = decide([VALID, z3.Not(z3.Or(pcs))], os.path.join(qdir, fn.name + "_cover.smt2"), stats,
+                  pending=pending, owner=fn.name)
     if r != "unsat":
         raise Inconclusive("path conditions of %s do not cover the input space" % fn.name)
 
     # (V) some valid scrutinee on some path: not a return of the oracle's value
-    r, model = decide([VALID, z3.Or(bads)], os.path.join(qdir, fn.name + "_verdict.smt2"), stats, want_model=True)
+    r, model = decide([VALID, z3.Or(bads)], os.path.join(qdir, fn.name + "_verdict.smt2"), stats, want_model=True,
+                      pending=pending, owner=fn.name)
     if r == "sat":
         value = gen.model_value(model, fn.T, x, fn.enums)
         xarg = x if not isinstance(x, (interp.TupleVal, interp.EnumVal)) else None
@@ -373,6 +417,10 @@ def process(fns, wdir, seed, stats, depth=0):
     for be, exe in exes.items():
         rc, out, err = run_exe(exe)
         real[be] = (rc, out.split("\n"), err)
+        try:
+            os.remove(exe)        # ~40 MB each; the source and the dump stay
+        except OSError:
+            pass
 
     if len(fns) > 1 and any(rc != 0 for rc, _l, _e in real.values()):
         # some call ended the program early (trap / fall-through): give every kernel its own program
@@ -382,6 +430,7 @@ def process(fns, wdir, seed, stats, depth=0):
         return out
 
     results = []
+    pending = []
     for fn in fns:
         mine = [(i, v) for i, (g, v) in enumerate(calls) if g is fn]
         base = {"name": fn.name, "key": fn.key(), "T": fn.T, "shape": fn.shape, "src": gen.fn_src(fn)}
@@ -395,7 +444,7 @@ def process(fns, wdir, seed, stats, depth=0):
             except (interp.EncodingError, parser.Unsupported) as e:
                 verr = str(e)
             # 2. symbolic
-            r = check_kernel(fn, prog, wdir, stats, kernel_text(f))
+            r = check_kernel(fn, prog, wdir, stats, kernel_text(f), pending)
             r["validated_on"] = len(mine)
             r["src"] = base["src"]
             if r["status"] == "ok" and (verr or boots_note):
@@ -406,6 +455,17 @@ def process(fns, wdir, seed, stats, depth=0):
             results.append(dict(base, status="inconclusive", reason="%s: %s" % (type(e).__name__, e)))
         except Exception:     # never let an internal error look like a pass
             results.append(dict(base, status="inconclusive", reason="internal error: %s" % traceback.format_exc()[-1500:]))
+    # second and third opinion on every verdict query of this batch
+    try:
+        bad = cross_check(pending, wdir, stats)
+    except Exception:
+        bad = {q["owner"]: "cross-check crashed: " + traceback.format_exc()[-600:] for q in pending}
+    for r in results:
+        if r["name"] in bad and r["status"] != "inconclusive":
+            # a reproduced counterexample stands on the concrete run, but the solvers must agree
+            # before anything is called a verdict
+            r["status"] = "inconclusive"
+            r["reason"] = bad[r["name"]]
     return results
 
 
@@ -486,8 +546,9 @@ def negative(fn, wdir, seed, stats):
 
 def tier_params(tier):
     if tier == "quick":
-        return {"kernels": 64, "negatives": 12}
-    return {"kernels": 336, "negatives": 60}
+        # gen.generate() never returns fewer kernels than shape classes; two rounds over the classes
+        return {"kernels": 2 * (len(gen.classes()) + len(gen.stretch_classes())), "negatives": 16}
+    return {"kernels": 640, "negatives": 100}
 
 
 def main(tier):
